@@ -11,7 +11,29 @@ use crate::{bytes, chars, gres, r_err, r_ok, res, res_unit, vbool};
 
 /// components of a string that is trivially a canonical absolute path (decided syntactically here, without
 /// rivia): the validator then skips the character-level resolution; anything else is resolved by the spec.
+/// In call arguments the character U+00FF stands for the raw byte 0xFF: the path handed to rivia is then NOT valid UTF-8
+/// (the Debug projection of Memfs renders such a byte as \xff, which memproj reads back as U+00FF - the same marker).
+pub const INV: char = '\u{ff}';
+pub fn to_path(s: &str) -> PathBuf {
+    if !s.contains(INV) {
+        return PathBuf::from(s);
+    }
+    use std::os::unix::ffi::OsStringExt;
+    let mut bytes: Vec<u8> = vec![];
+    for ch in s.chars() {
+        if ch == INV {
+            bytes.push(0xff);
+        } else {
+            let mut buf = [0u8; 4];
+            bytes.extend_from_slice(ch.encode_utf8(&mut buf).as_bytes());
+        }
+    }
+    PathBuf::from(std::ffi::OsString::from_vec(bytes))
+}
 fn canon_arg(s: &str) -> (Value, &'static str) {
+    if s.contains(INV) {
+        return (json!([]), "x"); // not valid UTF-8: every path resolution has to refuse it
+    }
     if s.starts_with('/') && !s.contains('~') && !s.contains('$') && !s.contains(':') {
         let cs: Vec<&str> = if s == "/" { vec![] } else { s[1..].split('/').collect() };
         if cs.iter().all(|c| !c.is_empty() && *c != "." && *c != "..") {
@@ -125,8 +147,8 @@ fn entry_view0(e: &VfsEntry) -> Value {
 /// Execute one call; every panic becomes {"o":"panic"}
 pub fn apply<V: VirtualFileSystem>(v: &V, c: &Value) -> Value {
     let op = c["op"].as_str().unwrap_or("");
-    let a = PathBuf::from(s_of(&c["a"]));
-    let b = PathBuf::from(s_of(&c["b"]));
+    let a = to_path(&s_of(&c["a"]));
+    let b = to_path(&s_of(&c["b"]));
     let d = b_of(&c["d"]);
     let m = c["m"].as_u64().unwrap_or(0) as u32;
     let n = c["n"].as_u64().unwrap_or(0) as u32;
